@@ -18,6 +18,7 @@ import inspect
 
 import c14_conn as CN
 import c14_fuzz as F
+import c14_rare as RD
 import secsm
 from common import hx
 
@@ -838,6 +839,9 @@ def _run(ctx, env, rn):
 
     # 0. whole connections with the real client on the other end against Model/VEcuConn.lean (first: independent of the parts below)
     run_connections(ctx, rn, reals, names)
+
+    # 0b. rare-draw search over hundreds of models (harness/c14_rare.py)
+    RD.run(ctx, rn, env, session_paths, params_json)
 
     # 1. random histories up to N requests (mixed: random bytes, sid + payload, session changes, seed/key dialogues,
     #    known services, constructor requests; idle gaps around the 10 s inactivity limit)
